@@ -1563,7 +1563,9 @@ class Module(ABC):
 
         new_recs = pd.DataFrame(in_view, columns=["rec_index"])
         new_recs["state"] = state
-        self.base.recordings = pd.concat([self.base.recordings, new_recs])
+        self.base.recordings = pd.concat(
+            [self.base.recordings, new_recs], ignore_index=True
+        )
         has_duplicates = self.base.recordings.duplicated()
         self.base.recordings = self.base.recordings.loc[~has_duplicates]
         if verbose:
